@@ -200,6 +200,10 @@ func GenJournal(r *RNG, o JGenOpts) (*Journal, []string) {
 	for len(accounts) < nacc {
 		a := Pick(r, typeNames)
 		depth := r.Range(1, 3)
+		if r.Chance(1, 5) {
+			depth = r.Range(3, 5) // deep accounts: mapping rules with a suffix only bite when depth > level + suffix (seed C02-b)
+			tag("deep-account")
+		}
 		for k := 0; k < depth; k++ {
 			a += ":" + Pick(r, segs)
 		}
